@@ -805,6 +805,232 @@ func runShape(sc *shapeCase) (o shapeOut) {
 	return
 }
 
+// ---- dispatch ---------------------------------------------------------------------------------------------------------------
+//
+// Funcs maps with 2-5 entries of DIFFERENT signatures whose results name the Go function that produced them; the program defines
+// AWK functions, some under the name of a map entry (the AWK definition must win) and some under other names that sort before /
+// between / after the entries, and calls every name once with the argument 2.9 (plus "q" where a second one fits). Oracle: each
+// printed result is the one the Go function OF THAT NAME gives for the documented conversion of 2.9 (int 2, uint8 2, string and
+// []byte "2.9", float64 2.9, bool true), the overridden names give the AWK result, and exactly the non-overridden Go functions ran.
+type dispCase struct {
+	Funcs   []string `json:"funcs"` // name:template
+	AwkDefs []string `json:"awk_functions"`
+	Program string   `json:"program"`
+	Want    string   `json:"expected_output"`
+
+	names []string
+	tmpl  map[string]int
+}
+
+var dispTemplates = []struct {
+	desc string
+	args string
+	make func(name string, hit func(string)) any
+	want func(name string) string
+}{
+	{"func(int) string", "2.9", func(n string, hit func(string)) any {
+		return func(x int) string { hit(n); return fmt.Sprintf("%s/int:%d", n, x) }
+	}, func(n string) string { return n + "/int:2" }},
+	{"func(string) string", "2.9", func(n string, hit func(string)) any {
+		return func(x string) string { hit(n); return n + "/str:" + x }
+	}, func(n string) string { return n + "/str:2.9" }},
+	{"func(float64, bool) string", `2.9, "q"`, func(n string, hit func(string)) any {
+		return func(x float64, b bool) string { hit(n); return fmt.Sprintf("%s/fb:%v,%v", n, x, b) }
+	}, func(n string) string { return n + "/fb:2.9,true" }},
+	{"func(...string) string", `2.9, "q"`, func(n string, hit func(string)) any {
+		return func(xs ...string) string { hit(n); return fmt.Sprintf("%s/var:%d:%s", n, len(xs), strings.Join(xs, ",")) }
+	}, func(n string) string { return n + "/var:2:2.9,q" }},
+	{"func(uint8) NString", "2.9", func(n string, hit func(string)) any {
+		return func(x uint8) NString { hit(n); return NString(fmt.Sprintf("%s/u8:%d", n, x)) }
+	}, func(n string) string { return n + "/u8:2" }},
+	{"func([]byte) ([]byte, error)", "2.9", func(n string, hit func(string)) any {
+		return func(x []byte) ([]byte, error) { hit(n); return []byte(n + "/bytes:" + string(x)), nil }
+	}, func(n string) string { return n + "/bytes:2.9" }},
+	{"func() string", "", func(n string, hit func(string)) any {
+		return func() string { hit(n); return n + "/none" }
+	}, func(n string) string { return n + "/none" }},
+}
+
+func runDispatch(c *vh.Ctx) {
+	pool := []string{"aa", "ab", "b", "ba", "Zz", "_u", "m9", "zz", "a", "B1"}
+	extraAwk := []string{"A0", "a0", "az", "mm", "zzz", "_a"} // AWK-only names: before / between / after the map's names
+	n := c.N(400, 6000)
+	cases := make([]*dispCase, n)
+	type resT struct {
+		out, err, pnc string
+		hits         []string
+	}
+	res := make([]resT, n)
+	for i := range cases {
+		k := 2 + c.Rng.Intn(4)
+		perm := c.Rng.Perm(len(pool))[:k]
+		dc := &dispCase{tmpl: map[string]int{}}
+		for _, pi := range perm {
+			dc.names = append(dc.names, pool[pi])
+		}
+		sort.Strings(dc.names)
+		tperm := c.Rng.Perm(len(dispTemplates))
+		over := map[string]bool{}
+		for j, name := range dc.names {
+			dc.tmpl[name] = tperm[j%len(tperm)]
+			dc.Funcs = append(dc.Funcs, name+": "+dispTemplates[dc.tmpl[name]].desc)
+			if c.Rng.Intn(3) == 0 {
+				over[name] = true
+			}
+		}
+		if i%4 == 0 { // make sure the sorted-before case is frequent: override the smallest name, call the rest
+			over[dc.names[0]] = true
+			delete(over, dc.names[len(dc.names)-1])
+		}
+		var src, want strings.Builder
+		for _, name := range dc.names {
+			if over[name] {
+				dc.AwkDefs = append(dc.AwkDefs, name)
+			}
+		}
+		for _, e := range extraAwk {
+			if c.Rng.Intn(3) == 0 {
+				dc.AwkDefs = append(dc.AwkDefs, e)
+			}
+		}
+		c.Rng.Shuffle(len(dc.AwkDefs), func(a, b int) { dc.AwkDefs[a], dc.AwkDefs[b] = dc.AwkDefs[b], dc.AwkDefs[a] })
+		for _, a := range dc.AwkDefs {
+			fmt.Fprintf(&src, "function %s(x, y) { return \"awk-%s:\" x }\n", a, a)
+		}
+		src.WriteString("BEGIN {\n")
+		calls := append([]string{}, dc.names...)
+		for _, a := range dc.AwkDefs {
+			if !over[a] {
+				calls = append(calls, a)
+			}
+		}
+		c.Rng.Shuffle(len(calls), func(a, b int) { calls[a], calls[b] = calls[b], calls[a] })
+		for _, name := range calls {
+			t, isNative := dc.tmpl[name]
+			if isNative && !over[name] {
+				fmt.Fprintf(&src, "  print %s(%s)\n", name, dispTemplates[t].args)
+				want.WriteString(dispTemplates[t].want(name) + "\n")
+			} else {
+				fmt.Fprintf(&src, "  print %s(2.9)\n", name)
+				want.WriteString("awk-" + name + ":2.9\n")
+			}
+		}
+		src.WriteString("}\n")
+		dc.Program, dc.Want = src.String(), want.String()
+		cases[i] = dc
+	}
+	vh.Parallel(n, func(i int) {
+		dc := cases[i]
+		r := &res[i]
+		defer func() {
+			if p := recover(); p != nil {
+				r.pnc = fmt.Sprint(p)
+			}
+		}()
+		funcs := map[string]any{}
+		for _, name := range dc.names {
+			funcs[name] = dispTemplates[dc.tmpl[name]].make(name, func(h string) { r.hits = append(r.hits, h) })
+		}
+		prog, err := parser.ParseProgram([]byte(dc.Program), &parser.ParserConfig{Funcs: funcs})
+		if err != nil {
+			r.err = "parse: " + err.Error()
+			return
+		}
+		var out bytes.Buffer
+		_, err = interp.ExecProgram(prog, &interp.Config{Funcs: funcs, Output: &out, Error: &out, Environ: []string{}})
+		r.out = out.String()
+		if err != nil {
+			r.err = err.Error()
+		}
+	})
+	var reqs []string
+	var reqCase []int
+	for i, dc := range cases {
+		r := res[i]
+		c.Eval("disp|"+dc.Program+strings.Join(dc.Funcs, ";"), len(dc.AwkDefs) > 0)
+		c.OracleCase()
+		c.Hit(fmt.Sprintf("dispatch:entries=%d", len(dc.names)))
+		over := map[string]bool{}
+		for _, a := range dc.AwkDefs {
+			over[a] = true
+		}
+		nover := 0
+		for j, name := range dc.names {
+			if over[name] {
+				nover++
+				if j < len(dc.names)-1 {
+					c.Hit("dispatch:overridden entry sorts before a called native")
+				}
+			}
+		}
+		c.Hit(fmt.Sprintf("dispatch:overridden=%d", nover))
+		if i%499 == 0 {
+			c.Sample(map[string]interface{}{"dispatch": dc, "output": r.out})
+		}
+		var wantHits []string
+		for _, name := range dc.names {
+			if !over[name] {
+				wantHits = append(wantHits, name)
+			}
+		}
+		gotHits := append([]string{}, r.hits...)
+		sort.Strings(gotHits)
+		switch {
+		case r.pnc != "":
+			c.Fail(vh.Failure{Kind: "oracle", What: "dispatch: panic", Case: dc, Got: r.pnc, Want: "no panic"})
+		case r.err != "":
+			c.Fail(vh.Failure{Kind: "oracle", What: "dispatch: a program that calls documented functions with accepted argument counts fails", Case: dc, Got: r.err, Want: "runs"})
+		case r.out != dc.Want:
+			c.Fail(vh.Failure{Kind: "oracle", What: "dispatch: a call did not reach the Go function of that name with the documented conversions (or an AWK definition did not win)", Case: dc, Got: r.out, Want: dc.Want})
+		case strings.Join(gotHits, ",") != strings.Join(wantHits, ","):
+			c.Fail(vh.Failure{Kind: "oracle", What: "dispatch: the set of Go functions that ran", Case: dc, Got: strings.Join(gotHits, ","), Want: strings.Join(wantHits, ",")})
+		}
+		// model: which callee each name reaches
+		awk := "-"
+		if len(dc.AwkDefs) > 0 {
+			hs := make([]string, len(dc.AwkDefs))
+			for j, a := range dc.AwkDefs {
+				hs[j] = vh.HxS(a)
+			}
+			awk = strings.Join(hs, ",")
+		}
+		fs := make([]string, len(dc.names))
+		for j, a := range dc.names {
+			fs[len(dc.names)-1-j] = vh.HxS(a) // reversed: the model sorts
+		}
+		for _, name := range dc.names {
+			reqs = append(reqs, fmt.Sprintf("disp %s %s %s", awk, strings.Join(fs, ","), vh.HxS(name)))
+			reqCase = append(reqCase, i)
+		}
+	}
+	if c.HasLean() {
+		for k, a := range c.LeanBatch(reqs) {
+			dc := cases[reqCase[k]]
+			name := string(vh.Unhx(strings.Fields(reqs[k])[3]))
+			over := false
+			for _, x := range dc.AwkDefs {
+				over = over || x == name
+			}
+			// what the run shows for this name: its line in the output
+			t := dc.tmpl[name]
+			real := "?"
+			r := res[reqCase[k]]
+			for _, ln := range strings.Split(r.out, "\n") {
+				if ln == "awk-"+name+":2.9" {
+					real = "awk " + vh.HxS(name)
+				} else if !over && ln == dispTemplates[t].want(name) {
+					real = "native " + vh.HxS(name)
+				}
+			}
+			c.Trace()
+			if real != a {
+				c.Fail(vh.Failure{Kind: "correspondence", What: "dispatch: model (sorted key list on both sides) and code disagree for " + name, Case: dc, Got: real + " | output: " + r.out, Want: a})
+			}
+		}
+	}
+	c.Note(fmt.Sprintf("%d dispatch programs", n))
+}
+
 // ---- set-up histories --------------------------------------------------------------------------------------------------------
 //
 // One program (parsed with the good map G = {f: func(int) int, g: func(string) string}) is run 2-3 times on one Interpreter made
@@ -1447,6 +1673,9 @@ func runC17(c *vh.Ctx) {
 			c.Fail(vh.Failure{Kind: "correspondence", What: "model: calling a nil function should be a panic", Got: a})
 		}
 	}
+	// ---------------- 4. dispatch: maps with several entries, some overridden by AWK functions ----------------------------------
+	runDispatch(c)
+
 	// ---------------- 3. set-up histories: several Execute / ExecuteContext calls on ONE Interpreter -------------------------
 	runHistories(c, shapes)
 
